@@ -120,7 +120,11 @@ func tunAcc(j int) sdk.AccAddress { return venv.Addr(1 + j) }
 
 func tunModule() sdk.AccAddress { return venv.ModuleAddr(types.ModuleName) }
 
-func tunSetup() *tunEnv {
+func tunSetup() *tunEnv { return tunSetupAuth(nil) }
+
+// tunSetupAuth: auth != nil replaces the account keeper handed to the tunnel keeper (the genesis harness needs
+// module accounts that carry the table address the bank fake uses).
+func tunSetupAuth(auth types.AccountKeeper) *tunEnv {
 	key := storetypes.NewKVStoreKey(types.StoreKey)
 	ctx := venv.NewContext(key)
 	cdc := venv.Codec()
@@ -131,7 +135,10 @@ func tunSetup() *tunEnv {
 		ics4:  &venv.ICS4{},
 	}
 	e.tss = &tunBandtss{bank: e.bank}
-	e.k = NewKeeper(cdc, key, e.auth, e.bank, e.feeds, e.tss, venv.Channels{}, e.ics4, venv.Ports{}, venv.Scoped{},
+	if auth == nil {
+		auth = e.auth
+	}
+	e.k = NewKeeper(cdc, key, auth, e.bank, e.feeds, e.tss, venv.Channels{}, e.ics4, venv.Ports{}, venv.Scoped{},
 		venv.Addr(9).String())
 	e.ctx = ctx
 	return e
